@@ -12,6 +12,7 @@ import (
 	"fmt"
 	"os"
 	"path/filepath"
+	"regexp"
 	"strings"
 	"time"
 
@@ -211,29 +212,44 @@ func RunSession(s Session) mon.Result {
 		base, spanBase := 0, 0
 		conn.Do(func() { cur = m; base = len(dev.Lines); spanBase = len(dev.Spans) })
 
+		names := o.Opts
+		if len(names) == 0 {
+			names = canonicalOpts(o)
+		}
 		var opo []util.Option
-		if o.OLGiven {
-			l := append([]string(nil), o.OL...)
-			if len(l) == 0 && oi%2 == 0 {
-				l = nil // "given but empty" both as nil and as an empty slice
+		for _, name := range names {
+			switch name {
+			case "fwc":
+				l := append([]string(nil), o.OL...)
+				if len(l) == 0 && oi%2 == 0 {
+					l = nil // "given but empty" both as nil and as an empty slice
+				}
+				opo = append(opo, opoptions.WithFailedWhenContains(l))
+			case "stop":
+				opo = append(opo, opoptions.WithStopOnFailed())
+			case "nostrip":
+				opo = append(opo, opoptions.WithNoStripPrompt())
+			case "exact":
+				opo = append(opo, opoptions.WithExactMatchInput())
+			case "timeout":
+				opo = append(opo, opoptions.WithTimeoutOps(90*time.Second))
+			case "interim":
+				opo = append(opo, opoptions.WithInterimPromptPattern([]*regexp.Regexp{neverRe}))
+			case "priv":
+				opo = append(opo, opoptions.WithPrivilegeLevel("configuration"))
+			default:
+				panic("c13: unknown option name " + name)
 			}
-			opo = append(opo, opoptions.WithFailedWhenContains(l))
 		}
-		if o.Stop {
-			opo = append(opo, opoptions.WithStopOnFailed())
-		}
-		if !o.Strip {
-			opo = append(opo, opoptions.WithNoStripPrompt())
-		}
-		if o.Exact {
-			opo = append(opo, opoptions.WithExactMatchInput())
+		if v := optsConsistent(o, names); v != "" {
+			panic("c13 harness: option list inconsistent with the operation's flags: " + v)
 		}
 		out, cerr := call(gd, nd, o.API, cmds, opo)
 
 		bad := func(v verdict) mon.Result {
 			return mon.Result{Verdict: mon.Violated, Key: v.key,
 				Detail: fmt.Sprintf("operation %d (%s, stop=%v, strip=%v, driver list %q, operation list given=%v %q, marks %s): %s",
-					oi, o.API, o.Stop, o.Strip, s.DL, o.OLGiven, o.OL, marks(o), v.detail),
+					oi, o.API, o.Stop, o.Strip, s.DL, o.OLGiven, o.OL, marks(o), v.detail) + fmt.Sprintf(" [option order %v: %s]", names, OptShape(names)),
 				Events: tail(conn.Log(), 60), NonTrivial: true, Obs: obs}
 		}
 		if cerr != nil {
@@ -301,6 +317,24 @@ func RunSession(s Session) mon.Result {
 		}
 		lc := listClass(&s, o)
 		obs["list_in_force:"+lc]++
+		shape := OptShape(names)
+		obs["option_order:"+shape]++
+		tag("option_order=%s", shape)
+		seenForeign := false
+		for _, name := range names {
+			if !isGenericOpt(name) {
+				seenForeign = true
+				tag("foreign_option=%s", name)
+			} else if seenForeign {
+				obs["option_after_foreign:"+name]++
+				if name == "stop" && sent < n {
+					obs["stop_after_foreign_and_truncated"]++
+				}
+				if name == "fwc" && len(o.OL) > 0 && nFailed > 0 {
+					obs["op_list_after_foreign_and_member_failed"]++
+				}
+			}
+		}
 		tag("api=%s", o.API)
 		tag("stop=%v", o.Stop)
 		tag("strip=%v", o.Strip)
@@ -333,6 +367,29 @@ func RunSession(s Session) mon.Result {
 		res.Sample = sample
 	}
 	return res
+}
+
+// neverRe is an interim prompt pattern that no device output can match (outputs contain no NUL).
+var neverRe = regexp.MustCompile(`(?m)^\x00never\x00$`)
+
+// optsConsistent checks that the option names carry exactly the operation's semantic flags.
+func optsConsistent(o *Op, names []string) string {
+	has := map[string]int{}
+	for _, n := range names {
+		has[n]++
+	}
+	for n, c := range has {
+		if c > 1 {
+			return "duplicate " + n
+		}
+	}
+	if (has["fwc"] == 1) != o.OLGiven || (has["stop"] == 1) != o.Stop || (has["nostrip"] == 1) == o.Strip || (has["exact"] == 1) != o.Exact {
+		return fmt.Sprintf("%v", names)
+	}
+	if has["priv"] == 1 && !strings.HasPrefix(o.API, "cfg") {
+		return "priv on a non-config API"
+	}
+	return ""
 }
 
 func firstFailed(refs []string, fails []bool) string {
